@@ -1,5 +1,6 @@
 import MidnightZK.Model.C09.Planner
 import MidnightZK.Proofs.C09.Planner
+import MidnightZK.Model.C09.Tables
 /-!
 # C09 — circuit structure never depends on witness or instance values
 
@@ -254,5 +255,41 @@ theorem constant_cache_growth (cache : List Nat) (c : Nat) :
     | some i => exact absurd (List.idxOf?_eq_some_iff.mp hidx).2.1 (by
         intro he; exact h (he ▸ List.getElem_mem _))
     | none => rfl
+
+/-- **The range table is exactly what the enabled lookups need**: it contains `(t, v)` iff `t`
+is 0 or a queried tag within the configured maximum and `v < 2^t`. In particular it is a function
+of the set of queried tags (parameters of the range checks), not of any checked value. -/
+theorem pow2range_table_complete (m : Nat) (q : List Nat) (t v : Nat) :
+    (t, v) ∈ pow2rangeRows m q ↔ t ≤ m ∧ (t = 0 ∨ t ∈ q) ∧ v < 2 ^ t := by
+  simp only [pow2rangeRows, List.mem_flatMap, List.mem_range]
+  constructor
+  · rintro ⟨t', ht', h⟩
+    split at h
+    · next hq =>
+      simp only [List.mem_map, List.mem_range, Prod.mk.injEq] at h
+      obtain ⟨v', hv', rfl, rfl⟩ := h
+      exact ⟨Nat.le_of_lt_succ ht', hq, hv'⟩
+    · cases h
+  · rintro ⟨htm, hq, hv⟩
+    refine ⟨t, Nat.lt_succ_of_le htm, ?_⟩
+    rw [if_pos hq]
+    simp only [List.mem_map, List.mem_range]
+    exact ⟨v, hv, rfl⟩
+
+example : pow2rangeRows 3 [2] = [(0, 0), (2, 0), (2, 1), (2, 2), (2, 3)] := by decide
+
+private theorem mem_ite_singleton (c : Prop) [Decidable c] (x n : String) :
+    n ∈ (if c then [x] else []) ↔ (n = x ∧ c) := by
+  by_cases h : c <;> simp [h]
+
+/-- **A table is loaded iff its chip is configured and was used**, and the range table always;
+nothing else enters. -/
+theorem stdlib_tables_spec (arch used : Chips) (n : String) :
+    n ∈ stdlibTables arch used ↔
+      n = "p2r" ∨ (n = "sha256" ∧ arch.sha256 ∧ used.sha256) ∨ (n = "sha512" ∧ arch.sha512 ∧ used.sha512)
+      ∨ (n = "base64" ∧ arch.base64 ∧ used.base64) ∨ (n = "automaton" ∧ arch.automaton ∧ used.automaton)
+      ∨ (n = "keccak_sha3" ∧ arch.keccakSha3 ∧ used.keccakSha3) ∨ (n = "blake2b" ∧ arch.blake2b ∧ used.blake2b) := by
+  simp only [stdlibTables, List.mem_append, List.mem_singleton, mem_ite_singleton, Bool.and_eq_true]
+  grind
 
 end MidnightZK.C09
